@@ -26,6 +26,7 @@ EXPLANATION = (
     "normal path and never on the exceptional one, no other writer; one encrypt per packet; PACK_NONCE layout). R5: each "
     "packet is (id of type(m), m serialised) for the same m over the caller's messages in order. Byte-exact decodability for "
     "all payload values is not decided."
+    " Added: every store to the writer slot is the transport's write or None; the bytes handed to _write_bytes are never rebound."
 )
 ASSUMPTIONS = ["bytes(), b''.join and struct.Struct('<LQ') have their documented semantics", "the AEAD primitive is ChaCha20-Poly1305 as provided by the library"]
 
